@@ -71,7 +71,7 @@ fn main() {
     let _ = &STOP_FLAG;
     {
         let per_op = std::env::var("BP7H_OP_SECS").ok().and_then(|x| x.parse().ok()).unwrap_or(180u64);
-        let total = std::env::var("BP7H_MAX_SECS").ok().and_then(|x| x.parse().ok()).unwrap_or(if tier == "thorough" { 5 * 3600 } else { 2400u64 });
+        let total = std::env::var("BP7H_MAX_SECS").ok().and_then(|x| x.parse().ok()).unwrap_or(if tier == "thorough" { 5 * 3600 } else { 1200u64 });
         let t0 = std::time::Instant::now();
         std::thread::spawn(move || loop {
             std::thread::sleep(std::time::Duration::from_secs(2));
